@@ -172,7 +172,7 @@ def main(chk: Check):
         if res["ops"] is None:
             continue
         for _, what in case["pre"]:
-            if what.startswith("file-same"):
+            if what.startswith("file-same") or what.startswith("file-setid"):
                 kinds["replaced:" + what] = kinds.get("replaced:" + what, 0) + 1
         pts = []
         in_new = set()
